@@ -47,6 +47,29 @@ func reasmConcEngine() *core.Engine[CPlan] {
 	}
 }
 
+func clientEngine(prop string, gen func(*core.Rng) *KPlan, race bool) *core.Engine[KPlan] {
+	return &core.Engine[KPlan]{
+		Property:        prop,
+		Name:            "client",
+		Gen:             gen,
+		Valid:           func(p *KPlan) bool { return p.Valid() },
+		Exec:            ExecKPlan,
+		ProbeNames:      kProbeNames,
+		FaultNames:      kFaultNames,
+		RaceIsViolation: race,
+		NontrivialRule: "a run is non-trivial when the kernel saw >= 2 requests (C16: >= 2 operations, C18: >= 2 operations or tasks); distinct = distinct hash of " +
+			"every call with its result, the number of datagrams the kernel saw and the receives it served, plus the concurrent phase's total-order history",
+		Components: map[string][]string{
+			"real": {"libaudit.AuditClient (all command methods, getReply retry loop, WaitForPendingACKs, Close)",
+				"libaudit.NetlinkClient Send/Receive/Close over the verif socket seam (transport 1)", "AuditStatus wire (un)marshalling", "ParseNetlinkError"},
+			"stub": {"kernel audit subsystem (SimKernel reference model with its own UAPI constants)", "socket system calls (SimSocket) or the exported Netlink field (transport 0)",
+				"socket creation / bind / port-id discovery (not exercised)", "clock (synctest virtual time; the 50 ms back-off sleeps are virtual)"},
+		},
+		Assumptions: []string{"the simulated kernel always sends the ACK before the data of a request (kthread reordering of real kernels is outside the property)",
+			"NewNetlinkClient (socket/bind/getsockname) and a real kernel are not exercised"},
+	}
+}
+
 // Dispatch runs the worker for the property named in the configuration.
 func Dispatch(t *testing.T, cfg core.Config) {
 	switch cfg.Property {
@@ -62,6 +85,14 @@ func Dispatch(t *testing.T, cfg core.Config) {
 		core.RunWorker(t, cfg, reasmSeqEngine("C19", 19))
 	case "C11":
 		core.RunWorker(t, cfg, reasmConcEngine())
+	case "C08":
+		core.RunWorker(t, cfg, clientEngine("C08", GenKPlanC08, false))
+	case "C16":
+		core.RunWorker(t, cfg, clientEngine("C16", GenKPlanC16, false))
+	case "C17":
+		core.RunWorker(t, cfg, clientEngine("C17", GenKPlanC17, true))
+	case "C18":
+		core.RunWorker(t, cfg, clientEngine("C18", GenKPlanC18, true))
 	default:
 		fmt.Fprintf(os.Stderr, "SIM-FATAL unknown property %q\n", cfg.Property)
 		os.Exit(core.ExitInternal)
